@@ -253,6 +253,8 @@ class AsyncWorld(object):
 
         async def main():
             for c in calls:
+                if getattr(self, 'dead', False):
+                    return
                 if 'at' in c and c.get('idle') == 'yield':
                     # the caller does other work on the loop until then ("poll, do other work, poll again"): the loop
                     # runs while output (and the end of the stream) arrives with no call outstanding
@@ -289,14 +291,24 @@ class AsyncWorld(object):
                 except (EOF, TIMEOUT):
                     pass
                 except Exception as e:
+                    if getattr(self, 'dead', False):
+                        return
                     if not rec.events or rec.events[-1].get('e') != 'ret':
                         rec.emit(e='ret', kind='error', idx=-1, raised=type(e).__name__, before=[], after=[],
                                  afterk='None', buffer=[], mi=-1, mk='None', mok=True, tok=True)
                 if sp.flag_eof:
                     break                # parity is claimed up to and including the first EOF
+        coro = main()
         try:
-            self.loop.run_until_complete(main())
+            self.loop.run_until_complete(coro)
         finally:
+            # a history that is abandoned (the loop would block for ever) leaves main() suspended inside a call: it must not
+            # run on - into the patches of the next world - when it is collected
+            self.dead = True
             self.close()
+            try:
+                coro.close()
+            except BaseException:
+                pass
         # sync calls were recorded by the expect_loop wrapper; their reads were logged through _log as well
         return rec.events
